@@ -112,10 +112,10 @@ Lemma filter_escape_sink_exact room pieces :
   (firstn room (escape (concat pieces)), Nat.leb (length (escape (concat pieces))) room).
 Proof. unfold filter_escape_sink. apply fbs_run_additive. exact escape_app. Qed.
 
-(* the sink gets exactly the first bytes; the failure is never reported (finding C15/2: urlencode(b,e,streambuf&) returns 0) *)
 Lemma filter_urlencode_sink_exact room pieces :
-  filter_urlencode_sink room pieces = (firstn room (urlencode (concat pieces)), true).
-Proof. unfold filter_urlencode_sink. rewrite (fbs_run_additive urlencode room urlencode_app). reflexivity. Qed.
+  filter_urlencode_sink room pieces =
+  (firstn room (urlencode (concat pieces)), Nat.leb (length (urlencode (concat pieces))) room).
+Proof. unfold filter_urlencode_sink. apply fbs_run_additive. exact urlencode_app. Qed.
 
 Lemma filter_sink_prefix room pieces :
   exists rest, escape (concat pieces) = fst (filter_escape_sink room pieces) ++ rest /\
@@ -125,4 +125,52 @@ Proof.
   exists (skipn room (escape (concat pieces))). split.
   - symmetry. apply firstn_skipn.
   - intros H. apply Nat.leb_le in H. apply skipn_all2. exact H.
+Qed.
+
+
+(* ---- after the repairs dd45f86 / 80bcd05 *)
+(* success is reported exactly when the whole encoding reached the sink *)
+Lemma firstn_all_iff (A : Type) n (l : list A) : firstn n l = l <-> (length l <= n)%nat.
+Proof.
+  split; intros H.
+  - rewrite <- H, firstn_length. lia.
+  - apply firstn_all2. exact H.
+Qed.
+Lemma urlencode_stream_reports room s :
+  urlencode_stream room s = (firstn room (urlencode s), Nat.leb (length (urlencode s)) room) /\
+  (snd (urlencode_stream room s) = true <-> fst (urlencode_stream room s) = urlencode s).
+Proof.
+  split; [reflexivity|]. unfold urlencode_stream. cbn [fst snd].
+  rewrite Nat.leb_le. symmetry. apply firstn_all_iff.
+Qed.
+
+Lemma filter_stream_ok_exact room pieces :
+  filter_escape_stream_ok room pieces = Nat.leb (length (escape (concat pieces))) room /\
+  filter_urlencode_stream_ok room pieces = Nat.leb (length (urlencode (concat pieces))) room /\
+  filter_base64_stream_ok room pieces = Nat.leb (length (b64encode (concat pieces))) room.
+Proof.
+  unfold filter_escape_stream_ok, filter_urlencode_stream_ok, filter_base64_stream_ok.
+  rewrite filter_escape_sink_exact, filter_urlencode_sink_exact. repeat split; reflexivity.
+Qed.
+
+(* a stream that has failed before the filter: every byte of the value is dropped, nothing reaches the sink, failure *)
+Lemma fbs_failed_putc F room sink buf c : fbs_putc F room (sink, buf, true) c = (sink, buf, true).
+Proof. reflexivity. Qed.
+Lemma fbs_failed_write F room piece : forall sink buf, fbs_write F room (sink, buf, true) piece = (sink, buf, true).
+Proof. induction piece as [|c p IH]; intros sink buf; [reflexivity|]. cbn [fbs_write fold_left]. rewrite fbs_failed_putc. apply IH. Qed.
+Lemma fbs_failed_pieces F room pieces : forall sink buf,
+  fold_left (fbs_write F room) pieces (sink, buf, true) = (sink, buf, true).
+Proof. induction pieces as [|p ps IH]; intros sink buf; [reflexivity|]. cbn [fold_left]. rewrite fbs_failed_write. apply IH. Qed.
+Lemma fbs_run_failed_nothing (F : list N -> list N) (room : nat) :
+  (forall a b, F (a ++ b) = F a ++ F b) -> forall pieces, fbs_run_failed F room pieces = ([], false).
+Proof.
+  intros Hadd pieces. unfold fbs_run_failed. rewrite fbs_failed_pieces.
+  unfold fbs_release, fbs_conv. rewrite (additive_nil F Hadd). cbn. reflexivity.
+Qed.
+Lemma filter_on_failed_stream_nothing v :
+  filter_on_failed_stream escape v = ([], false) /\ filter_on_failed_stream urlencode v = ([], false) /\
+  filter_base64_on_failed_stream v = ([], false).
+Proof.
+  unfold filter_on_failed_stream. rewrite (fbs_run_failed_nothing escape 0 escape_app), (fbs_run_failed_nothing urlencode 0 urlencode_app).
+  repeat split; reflexivity.
 Qed.
